@@ -234,10 +234,35 @@ CloudOpenF(cc, nn) ==
        IF d % CloudStepBytesNV(cc, 5) = 0 THEN [k |-> "Steps", n |-> d \div CloudStepBytesNV(cc, 5), nv |-> 5]
        ELSE IF d % CloudStepBytesNV(cc, 3) = 0 THEN [k |-> "Steps", n |-> d \div CloudStepBytesNV(cc, 3), nv |-> 3]
        ELSE [k |-> "Err", n |-> 0, nv |-> 0]
+\* ... and, when the first variable is read, compares the two length markers
+\* of every record it expects (time records and slabs of nv variables).  The
+\* word at offset w (in 4-byte words after the header) of the TRUE file: the
+\* value of a length marker, or 0 for content (hour, date, data: never equal
+\* to the word it is paired with)
+CloudStepWords(cc, nv) == 4 + nv * cc.nz * (cc.nx * cc.ny + 2)
+CloudTrueMark(cc, w) ==
+  LET r == w % CloudStepWords(cc, cc.nv) cells == cc.nx * cc.ny IN
+  IF r \in {0, 3} THEN 8
+  ELSE IF r < 4 THEN 0
+  ELSE IF ((r - 4) % (cells + 2)) \in {0, cells + 1} THEN cells * 4 ELSE 0
+CloudPairOK(cc, a, b) == CloudTrueMark(cc, a) # 0 /\ CloudTrueMark(cc, a) = CloudTrueMark(cc, b)
+\* reading the first k steps' worth of bytes as steps of nv variables
+CloudMarkersOK(cc, nv, k) ==
+  LET sw == CloudStepWords(cc, nv) cells == cc.nx * cc.ny IN
+  \A j \in 0..(k - 1) :
+     /\ CloudPairOK(cc, j * sw, j * sw + 3)
+     /\ \A r \in 0..(nv * cc.nz - 1) :
+          CloudPairOK(cc, j * sw + 4 + r * (cells + 2), j * sw + 4 + r * (cells + 2) + cells + 1)
+\* the outcome of opening AND reading the first n bytes
+CloudOpenM(cc, nn) ==
+  LET o == CloudOpenF(cc, nn) IN
+  IF o.k = "Steps" /\ ~CloudMarkersOK(cc, o.nv, o.n) THEN [k |-> "Err", n |-> 0, nv |-> 0] ELSE o
 \* a complete file that the rule reads with the other variable count
 CloudAmbiguous(cc) == CloudOpenF(cc, CloudHeaderBytes(cc) + cc.nt * CloudStepBytesNV(cc, cc.nv)).nv # cc.nv
 \* a prefix that the rule reads with the other variable count
-CloudAliased(cc, nn) == LET o == CloudOpenF(cc, nn) IN o.k = "Steps" /\ o.nv # cc.nv
+\* (size AND markers fit: format-inherent, finding C14_K2)
+CloudAliased(cc, nn) == LET o == CloudOpenM(cc, nn) IN o.k = "Steps" /\ o.nv # cc.nv
+CloudSizeAliased(cc, nn) == LET o == CloudOpenF(cc, nn) IN o.k = "Steps" /\ o.nv # cc.nv
 
 \* ------------------------------------- matching decoded words against a record
 \* a decoded word w = [i : as int32, f : as float32 when a small integer else
